@@ -58,6 +58,8 @@ theorem facts_shutdown_skeleton :
   decision), received from twice (`Closing` itself, `readRequest`), closed once (`Close`) and handed on
   once, to the HTTP/2 session (`h2Stop` depends on `closing`; `tunnel`, `mitmPeek`, `mitmHandshake` have no
   move that does);
+* `Close` contains no `go` statement, no `select` and no timer: it waits for the wait group itself and
+  unconditionally (`close_never_gives_up`);
 * `handle`: request modifier, hijack check, round trip, response modifier, hijack check, close decision,
   write, flush — in this order; `handleLoop` leaves after `handle` on a closeable error or a hijacked session. -/
 theorem facts_shutdown_round3 :
@@ -67,7 +69,8 @@ theorem facts_shutdown_round3 :
     Generated.Shutdown.handleOrder =
       ["readRequest", "handleConnectRequest", "ModifyRequest", "Hijacked", "roundTrip", "ModifyResponse",
        "Hijacked", "Closing", "Write", "Flush"] ∧
-    Generated.Shutdown.handleLoopBody = ["handle", "isCloseable", "Hijacked"] := by
+    Generated.Shutdown.handleLoopBody = ["handle", "isCloseable", "Hijacked"] ∧
+    Generated.Shutdown.closeShape = [] := by
   decide
 
 /-! ### every started exchange is completed before its connection is closed -/
@@ -419,6 +422,48 @@ theorem round_trip_return_enabled_during_shutdown {s : Sys} {k : Nat} {h : Handl
     ∃ s', step s (.h k (.rtEnd rc)) = some s' ∧ s'.closing = s.closing ∧ s'.wg = s.wg ∧
       s'.cpc = s.cpc ∧ s'.hs = s.hs.set k { h with pc := .postRoundTrip, resClose := rc } := by
   simp [step, hk, hstep, hp, HL.wgAfter]
+
+/-! ### the proxy's configured timeout (`SetTimeout`) during shutdown
+
+`p.timeout` appears in the code only as the deadline `handleLoop` (and the MITM loop) arm on the CLIENT
+connection before reading a request. In the model it can therefore act only where the handler reads from or
+writes to the client: as `readErr` (reading), `writeErr` (writing — an exchange that outlasts the timeout
+finds the deadline expired when it writes its response), `peeked`/`handshakeEnd` (MITM). -/
+
+/-- While an exchange is parked in (or between) the request modifier, the round trip / dial and the response
+modifier, up to the close decision, every move of its handler is a move of the proxy itself (a gate being
+released), enabled whatever the shutdown state: no step there stands for a timeout — the handler's progress
+does not depend on `p.timeout` while it is parked in a modifier or the round tripper. -/
+theorem idle_timeout_acts_only_on_client_io {c m r : Bool} {h h' : Handler} {l : HL}
+    (hp : h.pc.beforeDecision = true ∨ h.pc = .dialing) (hs : hstep c m r h l = some h') :
+    (Label.h 0 l).internal = true ∧ ∀ c' m' r', (hstep c' m' r' h l).isSome = true := by
+  rcases hp with hp | hp
+  · cases hpc : h.pc <;> simp [hpc, Pc.beforeDecision] at hp <;>
+      cases l <;> simp [hstep, hpc, Pc.readable] at hs <;>
+      exact ⟨rfl, fun _ _ _ => by simp_all [hstep, hpc]⟩
+  · cases l <;> simp [hstep, hp, Pc.readable] at hs
+    exact ⟨rfl, fun _ _ _ => by simp [hstep, hp]⟩
+
+/-- `Close` never gives up: once it holds `connsMu` the only step that moves it on is `waitZero`, enabled
+only when the wait-group counter is 0 — there is no step by which it returns on a timer. With
+`close_waits_for_every_counted_handler`: however long an exchange stays parked, `Close` stays pending. -/
+theorem close_never_gives_up {s s' : Sys} {l : Label} (hc : s.cpc = .locked) (hs : step s l = some s')
+    (hne : s'.cpc ≠ s.cpc) : l = .waitZero ∧ s.wg = 0 ∧ s'.cpc = .zeroSeen := by
+  cases l <;> simp only [step] at hs
+  case h k l =>
+    split at hs
+    · cases hs
+    · split at hs
+      · cases hs
+      · split at hs <;> cases hs
+        exact absurd rfl hne
+  case closeCall2 => cases hs; exact absurd rfl hne
+  case waitZero =>
+    split at hs <;> cases hs
+    rename_i h1
+    exact ⟨rfl, h1.2, rfl⟩
+  all_goals (split at hs <;> cases hs)
+  all_goals first | (exact absurd rfl hne) | (simp_all)
 
 /-! ### non-vacuity: the hypotheses above are satisfiable, the parked states are reachable -/
 
